@@ -160,12 +160,25 @@ FromWalk(w) ==
 
 Init == st = InitState /\ l = 1 /\ skip = FALSE /\ cyc = NoCyc
 
+(* An image carrying one of the documented, tolerated deviations (C16):      *)
+(* permissive open succeeds and exposes the content of the undamaged file,  *)
+(* strict open rejects it.                                                  *)
+DeviationChecks(t, e) ==
+  IF e.res.k # "ok" THEN << <<"C16", "permissive-open", FALSE, TRUE>> >>
+  ELSE
+  << <<"C16", "permissive-content", ApiOK(e) /\ e.api.walk = WalkDump(t), TRUE>>,
+     <<"C16", "permissive-reopen",
+        Has(e, "reopen") /\ ReopenOK(e, "permissive") /\ e.reopen.permissive.ok.walk = WalkDump(t), FALSE>>,
+     <<"C16", "strict-rejects", Has(e, "reopen") /\ Has(e.reopen.strict, "err"), FALSE>> >>
+
 ResetStep(e) ==
   LET s0 == IF Has(e, "tree") THEN [tree |-> FromWalk(e.tree), handles |-> <<>>] ELSE InitState
       okres == e.res.k = "ok"
-      cs == IF okres /\ e.heavy THEN HeavyChecks(s0, s0, [e EXCEPT !.res = [k |-> "ok", v |-> "unit"]] @@ [op |-> "reset"]) ELSE <<>>
+      dev == Has(e, "expect") /\ e.expect = "deviation"
+      cs == IF dev THEN DeviationChecks(s0.tree, e)
+            ELSE IF okres /\ e.heavy THEN HeavyChecks(s0, s0, [e EXCEPT !.res = [k |-> "ok", v |-> "unit"]] @@ [op |-> "reset"]) ELSE <<>>
   IN /\ st' = s0 /\ cyc' = NoCyc
-     /\ (IF okres THEN TRUE ELSE Fail("OPEN", e.res.k, e))
+     /\ (IF okres \/ dev THEN TRUE ELSE Fail("OPEN", e.res.k, e))
      /\ Report(cs, e)
      /\ skip' = (~okres \/ AnyFatal(cs))
 
